@@ -22,7 +22,16 @@ class Check(HCheck):
     must_count = ("pagelinks_nonempty", "inbound_nonempty", "internal_nonempty", "outbound_nonempty", "cited_nonempty", "citing_nonempty", "all_false_refused")
 
     def spaces(self, tier):
-        return R.rich_spaces(tier)
+        sp = R.rich_spaces(tier)
+        if tier == "thorough":
+            # one query touching 2 100 distinct parent directories, link ends in the earliest ones
+            from ..engine_h import Space
+            from ..world import Cfg
+
+            dirs = [al.A + b"p:d%04d|" % i for i in range(2100)]
+            big = al.crawl(*[(d + b"p:x|", (dirs[(i * 7) % 2100] + b"p:y|", dirs[i % 5] + b"p:x|")) for i, d in enumerate(dirs)])
+            sp.insert(0, Space(Cfg("domain"), [big, al.create(dirs[3]), al.links((dirs[0] + b"p:x|", dirs[2099] + b"p:x|"))], 2, name="sizes/2100-directories"))
+        return sp
 
     def check_state(self, w, ctx):
         t = w.t
